@@ -175,6 +175,9 @@ func (a *c18) valOf(n *types.Named) *typeVal {
 	return tv
 }
 
+// skipKindProgram gives skipKind access to the declarations of rule constructors.
+var skipKindProgram *core.Program
+
 // skipKind: is this rule of a field's rule list validation.Skip — always, or
 // under a condition (Skip.When(c); a rule variable that holds Skip on some
 // path)? A Skip inside Each(...) or When(...) only ends that rule's own list.
@@ -191,6 +194,35 @@ func skipKind(info *types.Info, ld *core.LocalDefs, r ast.Expr, depth int) (alwa
 		if se, ok := x.Fun.(*ast.SelectorExpr); ok && se.Sel.Name == "When" && len(x.Args) == 1 {
 			if un, cd := skipKind(info, ld, se.X, depth+1); un || cd != "" {
 				return false, "when " + types.ExprString(x.Args[0])
+			}
+		}
+		// a rule constructor of the module that hands back Skip on some path
+		// (CanConvertInto returning Skip for an empty destination)
+		if skipKindProgram != nil {
+			if fn := core.Callee(info, x); fn != nil && core.InModule(fn.Pkg()) {
+				if cfd := skipKindProgram.DeclOf(fn); cfd != nil && cfd.Decl.Body != nil {
+					cinfo := cfd.Pkg.TypesInfo
+					cld := core.NewLocalDefs(cinfo, cfd.Decl.Body)
+					n, skips := 0, 0
+					ast.Inspect(cfd.Decl.Body, func(m ast.Node) bool {
+						if _, isLit := m.(*ast.FuncLit); isLit {
+							return false
+						}
+						if rs, ok := m.(*ast.ReturnStmt); ok && len(rs.Results) == 1 {
+							n++
+							if un, cd := skipKind(cinfo, cld, rs.Results[0], depth+1); un || cd != "" {
+								skips++
+							}
+						}
+						return true
+					})
+					if skips > 0 && skips == n {
+						return true, ""
+					}
+					if skips > 0 {
+						return false, "on the paths where " + fn.Name() + " returns validation.Skip"
+					}
+				}
 			}
 		}
 	case *ast.Ident:
@@ -298,6 +330,7 @@ func heldHow(t types.Type, m *types.Named) string {
 func C18(c *core.Ctx) {
 	p := c.P
 	c.Explain("Decided: (R1) validation reaches every reference position — for every registered document type, walking the type graph to each field whose type is (or contains) a reference type (currency code, country codes, extensions, tax combos, addons, regime, tags), each struct on the path has a validator, lists the field in its ValidateStruct call without an unconditional Skip, and holds the next type in a way the validation library actually recurses into (a value field whose validator has a pointer receiver is silently skipped); (R2) every reference type has a validator that consults the corresponding registry or table; (R3) every document type embedding tax.Tags validates the tag list against the tags offered by its regime and addons (sibling agreement). Not decided: that the registries themselves are complete (C19), nor the value-level behaviour of each rule.")
+	skipKindProgram = p
 	c.Rule("C18-R1", "validation reaches every reference position", 120)
 	c.Rule("C18-R2", "every reference type has a validator consulting the definitions", 7)
 	c.Rule("C18-R3", "documents embedding tax.Tags validate the list with TagsIn(supported tags)", 4)
@@ -441,6 +474,20 @@ func C18(c *core.Ctx) {
 	// R8: the regime and the addons a combo, an extension or a tag is judged against travel in
 	// the context; a ValidateWithContext that validates what is below it without the context
 	// leaves those references unjudged
+	// R9: what a document may reference is decided by the definitions of ITS regime and addons;
+	// a set kept in package-level state that run-time code writes (a cache that grows with every
+	// document seen) makes the answer depend on what was validated before
+	c.Rule("C18-R9", "the sets of offered keys and tags are not kept in package-level state written at run time (shared with C15-R1)", 8)
+	{
+		sub := core.NewCtx("C15", c.Tier, c.Seed, c.P, c.VerifDir)
+		sub.Quiet = true
+		c15Globals(sub, buildCallers(c.P))
+		for _, o := range sub.Obligations() {
+			if o.Rule == "C15-R1" {
+				c.ObAt("C18-R9", o.Key, o.Pos, o.OK, o.Msg)
+			}
+		}
+	}
 	c.Rule("C18-R8", "ValidateWithContext methods pass their context on to every nested validation (shared with C10-R5)", 20)
 	{
 		sub := core.NewCtx("C10", c.Tier, c.Seed, c.P, c.VerifDir)
